@@ -101,7 +101,13 @@ def builtin_model(pick, permuted: bool):
         labs = [f"osc{i + 1}" for i in range(n)]
         sign = -1.0 if t == "pfid" else 1.0          # PFID models the anti-causal signal: dephasing rates are negative
         f0, df = (590.0, 17.0) if t == "pfid" else (4.0, 5.0)
-        par["osc"] = [[f"f{i + 1}", f0 + df * i] for i in range(n)] + [[f"r{i + 1}", sign * 0.1 * (i + 1)] for i in range(n)]
+        # damping rates of either sign where supported: with a Gaussian IRF the damped oscillation takes negative rates too;
+        # the FIRST declared oscillation gets the negative one (negative before non-negative in declaration order)
+        def rate(i):
+            if t == "damped-oscillation" and pick["irf"] and i == 0 and n >= 2:
+                return -0.05
+            return sign * 0.1 * (i + 1)
+        par["osc"] = [[f"f{i + 1}", f0 + df * i] for i in range(n)] + [[f"r{i + 1}", rate(i)] for i in range(n)]
         md["megacomplex"][main] = {"type": t, "labels": [labs[i] for i in perm], "frequencies": [f"osc.f{i + 1}" for i in perm], "rates": [f"osc.r{i + 1}" for i in perm]}
     elif t == "spectral":
         par["shp"] = []
